@@ -503,3 +503,83 @@ _run_c16b = run
 def run(ctx):
     _run_c16b(ctx)
     ctx.guard(r16_7)
+
+
+# ------------------------------------------------------------------------------------------------ R16.8 renaming, end to end
+def r16_8(ctx):
+    """`names` through the entry point: check_contract is evaluated (shape-only tensors, C19's validation scenario) on a
+    user SDE whose methods carry other names, and the SDE that comes out is asked for its drift / diffusion / prior drift:
+    each must be the user's method for that role.  The name maps include the awkward ones -- a user method called like
+    the canonical name of *another* role that is renamed too (`{'drift': 'mu', 'diffusion': 'f'}`), a swap of f and g --
+    where a rename applied in place, one after the other, reads a slot an earlier rename has already overwritten."""
+    from . import c19
+    rep, model = ctx.rep, ctx.model
+    rep.rule("R16.8", "renaming through check_contract: for every name map, also maps that collide with canonical names, "
+                      "each role resolves to the user's method for that role")
+    cc = model.func(SDEINT, "check_contract")
+    rep.analysed(cc)
+    B, d = 4, 3
+    shapes = {"drift": (B, d), "diffusion": (B, d), "prior_drift": (B, d)}
+    slots = {"drift": "f", "diffusion": "g", "prior_drift": "h"}
+    maps = [
+        {"drift": "mu", "diffusion": "sigma"},
+        {"drift": "mu", "diffusion": "f"},
+        {"drift": "g", "diffusion": "f"},
+        {"drift": "h", "prior_drift": "f", "diffusion": "g"},
+        {"diffusion": "f", "drift": "drift_fn"},
+        {"drift": "forward"},
+    ]
+    for names in maps:
+        attrs = {"noise_type": "diagonal", "sde_type": "ito"}
+        roles_of = {}
+        for role, slot in slots.items():
+            user_name = names.get(role, slot)
+            roles_of[user_name] = role
+        for user_name, role in roles_of.items():
+            attrs[user_name] = Intrinsic(f"user.{user_name}", (lambda role: lambda it, a, k, n, f: c19.TObj(shapes[role], f"{role}-out"))(role))
+        user = Obj("user-sde", attrs=attrs)
+
+        class H(c19.ContractHooks):
+            def external_call(self, interp, dotted, args, kwargs, node, fi):
+                if dotted == "copy.copy" and args and isinstance(args[0], Obj):
+                    src = args[0]
+                    return Obj(src.name + "-copy", cls=src.cls, attrs=dict(src.attrs), getattr_hook=src.getattr_hook,
+                               call_hook=src.call_hook, getitem_hook=src.getitem_hook)
+                return c19.ContractHooks.external_call(self, interp, dotted, args, kwargs, node, fi)
+        it = Interp(model, H())
+        label = ",".join(f"{k}={v}" for k, v in sorted(names.items()))
+        construct = f"{cc.key}::R16.8::{label}"
+        try:
+            out = it.call_function(cc, [user, c19.TObj((B, d), "y0"), [Fraction(0), Fraction(1)],
+                                        Obj("bm", attrs={"shape": (Fraction(B), Fraction(d)), "levy_area_approximation": "none"}),
+                                        "euler", False, None, dict(names), False], {})
+        except SimRaise as e:
+            rep.fail("R16.8", astq.loc(cc), construct,
+                     f"names={names}: check_contract raises {e.exc_name} ({str(e.message)[:80]}) for a complete, consistent SDE")
+            continue
+        sde = out[0]
+        t, y = Fraction(0), c19.TObj((B, d), "y")
+        bad = []
+        for role, slot in slots.items():
+            if role == "prior_drift":
+                continue                  # the prior drift is only read by the logqp wrapper (C18)
+            try:
+                got = it.call(it.getattr(sde, slot), [t, y], {})
+            except (SimRaise, AnalysisError) as e:
+                bad.append(f"{slot} -> error {e}")
+                continue
+            gname = getattr(got, "name", repr(got))
+            if gname != f"{role}-out":
+                bad.append(f"`{slot}` evaluates the user's {gname.replace('-out', '')} method instead of the {role}")
+        rep.check(not bad, "R16.8", astq.loc(cc), construct,
+                  f"names={names}: after check_contract {'; '.join(bad)}: the solver would integrate a different SDE without "
+                  f"any error", "every role resolves to the user's method for it")
+    ctx.floor("R16.8", 6)
+
+
+_run_c16c = run
+
+
+def run(ctx):
+    _run_c16c(ctx)
+    ctx.guard(r16_8)
